@@ -23,6 +23,7 @@ fn opt_cat(rng: &mut Rng, k: usize) -> Option<String> {
             0 => Some(" ".into()),
             1 => Some("\n".into()),
             2 => Some("\u{3000}\t".into()),
+            4 if (k / 5) % 2 == 0 => Some(["{\"kid\":\"k\",\"ctx\":{\"roles\":[\"admin\"]}}", "{\"kid\":\"x\",\"note\":\"see [[wiki]] {{x}}\"}", "{not json", "{\"a\":[[[[[[[[[[[[[[[[[[1]]]]]]]]]]]]]]]]]]}"][(k / 35) % 4].to_string()),
             3 => Some(["~~~", "{\"kid\":\"k-1\",\"jku\":\"https://example.com/keys?id=1\"}", "\u{65e5}\u{672c}\u{8a9e}\u{306e}\u{30d5}\u{30c3}\u{30bf}\u{30fc}", "ab?", "kid:\u{FFFD}7"][(k / 30) % 5].into()),
             _ => Some(rng.utf8_upto(40)),
         },
